@@ -129,7 +129,9 @@ def rule_pause(ctx, rep):
             # back in its futex wait when PAUSE lands - nobody wakes it again and before_fork polls for PAUSED for ever
             rep.must_pass("C16.pause", fl + ".before.PAUSE⇒wake", b, orr, None, lambda i: i in wk, to_exit=True, edge_ok=pat.block_edge_filter(_rt_edges(b, "call_rcu_data.flags", FLG.PAUSE | FLG.PAUSED)),
                           what="every PAUSE request is followed by the helper's futex test (wake_up) before before_fork returns")
-        waits = [(t, s) for t, s, a in pat.branch_edges_on(b, lambda a: a[0] == "eq" and a[2] == ("c", 0) and a[1][0] == "bin" and a[1][1] == "and" and a[1][3] == ("c", FLG.PAUSED))]
+        # the acknowledgement mask: PAUSED, possibly together with STOPPED (a helper retired concurrently is stopped for good - just as quiescent)
+        ackmask = lambda c: c[0] == "c" and (c[1] & FLG.PAUSED) and not (c[1] & ~(FLG.PAUSED | FLG.STOPPED))
+        waits = [(t, s) for t, s, a in pat.branch_edges_on(b, lambda a: a[0] == "eq" and a[2] == ("c", 0) and a[1][0] == "bin" and a[1][1] == "and" and ackmask(a[1][3]))]
         if not waits:
             rep.bad("C16.pause", fl + ".before.wait-PAUSED", "before_fork does not wait for every helper to acknowledge PAUSED: fork() can happen while a helper holds locks / is registered as reader", [orr[0].where()])
         else:
@@ -150,7 +152,7 @@ def rule_pause(ctx, rep):
         # of a batch it spliced out (registered as a reader, inside a grace period, holding its callbacks on its stack)
         walk = [(t, s_) for t, s_, a in pat.branch_edges_on(b, lambda a: a[0] == "ne" and pat.atom_mentions(a, lambda e: e[0] == "addr" and "call_rcu_data_list" in str(e)) or
                                                             (a[0] == "ne" and "call_rcu_data_list" in ir.atom_str(a)))]
-        pausedne = [(t.blk.id, s_) for t, s_, a in pat.branch_edges_on(b, lambda a: a[0] == "ne" and a[2] == ("c", 0) and a[1][0] == "bin" and a[1][1] == "and" and a[1][3] == ("c", FLG.PAUSED))]
+        pausedne = [(t.blk.id, s_) for t, s_, a in pat.branch_edges_on(b, lambda a: a[0] == "ne" and a[2] == ("c", 0) and a[1][0] == "bin" and a[1][1] == "and" and ackmask(a[1][3]))]
         nl = 0
         for t, s_ in walk:
             if t.blk.id not in [x for c in b.sccs() for x in c]:
